@@ -25,6 +25,29 @@ theorem hasDup_false_nodup (l : List String) (h : hasDup l = false) : l.Nodup :=
     simp only [hasDup, Bool.or_eq_false_iff] at h
     exact List.nodup_cons.mpr ⟨by simpa using h.1, ih h.2⟩
 
+theorem mem_insertBy {α : Type} (key : α → String) (a b : α) (l : List α) : b ∈ insertBy key a l ↔ b = a ∨ b ∈ l := by
+  induction l with
+  | nil => simp [insertBy]
+  | cons x xs ih =>
+    unfold insertBy
+    split
+    · simp
+    · simp only [List.mem_cons, ih]
+      constructor
+      · rintro (h | h | h)
+        · exact Or.inr (Or.inl h)
+        · exact Or.inl h
+        · exact Or.inr (Or.inr h)
+      · rintro (h | h | h)
+        · exact Or.inr (Or.inl h)
+        · exact Or.inl h
+        · exact Or.inr (Or.inr h)
+
+theorem mem_isort {α : Type} (key : α → String) (b : α) (l : List α) : b ∈ isort key l ↔ b ∈ l := by
+  induction l with
+  | nil => simp [isort]
+  | cons x xs ih => simp [isort, mem_insertBy, ih]
+
 /-! ### validate = every relation of every type passes validateRelation, names are unique -/
 
 structure Validated (m : Model) : Prop where
@@ -51,10 +74,10 @@ theorem validate_ok (m : Model) (h : validate m = .ok ()) : Validated m := by
           have := h2
           simp only [List.any_eq_true, not_exists, not_and, Bool.not_eq_true] at this
           exact this td htd
-        · have htd' : td ∈ sortedTypes m := (List.mergeSort_perm _ _).mem_iff.mpr htd
+        · have htd' : td ∈ sortedTypes m := (mem_isort _ _ _).mpr htd
           have := h td htd'
           rw [checkAll_ok_iff] at this
-          exact this rd ((List.mergeSort_perm _ _).mem_iff.mpr hrd)
+          exact this rd ((mem_isort _ _ _).mpr hrd)
 
 theorem validateRelation_parts (m : Model) (typ : String) (rd : RelDef) (h : validateRelation m typ rd = .ok ()) :
     rewriteValid m typ rd.name rd.rewrite = .ok () ∧ typeRestrictionsValid m typ rd = .ok () ∧
@@ -224,16 +247,24 @@ theorem tupleset_direct_only (m : Model) (h : validate m = .ok ()) (td : TypeDef
 
 /-! ### consequence: no cycle of computed usersets (what makes depth-free evaluation of computed usersets terminate) -/
 
-theorem hasCycleL_no_iff (m : Model) (typ : String) (fuel : Nat) (visited : List String) (cs : List Rewrite) :
-    hasCycleL m typ fuel visited cs = .no ↔ ∀ c ∈ cs, hasCycleRw m typ fuel visited c = .no := by
-  induction cs with
-  | nil => simp [hasCycleL]
+theorem hasCycleL_no (m : Model) (typ : String) (fuel : Nat) (visited : List String) (cs : List Rewrite)
+    (h : hasCycleL m typ fuel visited cs = .no) : ∀ c ∈ cs, ∃ f, hasCycleRw m typ f visited c = .no := by
+  induction cs generalizing fuel with
+  | nil => simp
   | cons c cs ih =>
-    simp only [hasCycleL, List.mem_cons, forall_eq_or_imp]
-    cases hc : hasCycleRw m typ fuel visited c with
-    | no => simp [ih]
-    | yes => simp
-    | err e => simp
+    cases fuel with
+    | zero => simp [hasCycleL] at h
+    | succ f =>
+      simp only [hasCycleL] at h
+      cases hc : hasCycleRw m typ f visited c with
+      | no =>
+        rw [hc] at h
+        intro c' hc'
+        rcases List.mem_cons.mp hc' with rfl | hc''
+        · exact ⟨f, hc⟩
+        · exact ih f h c' hc''
+      | yes => rw [hc] at h; cases h
+      | err e => rw [hc] at h; cases h
 
 theorem cuLeavesL_mem (cs : List Rewrite) (x : String) : x ∈ cuLeavesL cs ↔ ∃ c ∈ cs, x ∈ cuLeaves c := by
   induction cs with
@@ -252,47 +283,57 @@ theorem hc_sound (m : Model) (typ : String) (rw : Rewrite) (fuel : Nat) (visited
     intro x hx
     simp only [cuLeaves, List.mem_cons, List.not_mem_nil, or_false] at hx
     subst hx
-    simp only [hasCycleRw] at h
-    split at h
-    · cases h
-    · rename_i hv
-      cases hf : m.findRel typ x with
-      | none => simp [hf] at h
-      | some crd =>
-        simp only [hf] at h
-        cases fuel with
-        | zero => simp at h
-        | succ f =>
-          simp only at h
+    cases fuel with
+    | zero => simp [hasCycleRw] at h
+    | succ f =>
+      simp only [hasCycleRw] at h
+      split at h
+      · cases h
+      · rename_i hv
+        cases hf : m.findRel typ x with
+        | none => simp [hf] at h
+        | some crd =>
+          simp only [hf] at h
           exact ⟨by simpa using hv, crd, f, rfl, h⟩
   | .union cs, h =>
     intro x hx
     simp only [cuLeaves] at hx
     obtain ⟨c, hc, hxc⟩ := (cuLeavesL_mem cs x).mp hx
-    simp only [hasCycleRw] at h
     have : sizeOf c < sizeOf (Rewrite.union cs) := by
       have := List.sizeOf_lt_of_mem hc; simp; omega
-    exact hc_sound m typ c fuel visited ((hasCycleL_no_iff m typ fuel visited cs).mp h c hc) x hxc
+    cases fuel with
+    | zero => simp [hasCycleRw] at h
+    | succ f =>
+      simp only [hasCycleRw] at h
+      obtain ⟨f', hf'⟩ := hasCycleL_no m typ f visited cs h c hc
+      exact hc_sound m typ c f' visited hf' x hxc
   | .inter cs, h =>
     intro x hx
     simp only [cuLeaves] at hx
     obtain ⟨c, hc, hxc⟩ := (cuLeavesL_mem cs x).mp hx
-    simp only [hasCycleRw] at h
     have : sizeOf c < sizeOf (Rewrite.inter cs) := by
       have := List.sizeOf_lt_of_mem hc; simp; omega
-    exact hc_sound m typ c fuel visited ((hasCycleL_no_iff m typ fuel visited cs).mp h c hc) x hxc
+    cases fuel with
+    | zero => simp [hasCycleRw] at h
+    | succ f =>
+      simp only [hasCycleRw] at h
+      obtain ⟨f', hf'⟩ := hasCycleL_no m typ f visited cs h c hc
+      exact hc_sound m typ c f' visited hf' x hxc
   | .diff b s, h =>
     intro x hx
     simp only [cuLeaves, List.mem_append] at hx
-    simp only [hasCycleRw] at h
-    cases hb : hasCycleRw m typ fuel visited b with
-    | no =>
-      rw [hb] at h
-      rcases hx with hx | hx
-      · exact hc_sound m typ b fuel visited hb x hx
-      · exact hc_sound m typ s fuel visited h x hx
-    | yes => rw [hb] at h; cases h
-    | err e => rw [hb] at h; cases h
+    cases fuel with
+    | zero => simp [hasCycleRw] at h
+    | succ f =>
+      simp only [hasCycleRw] at h
+      cases hb : hasCycleRw m typ f visited b with
+      | no =>
+        rw [hb] at h
+        rcases hx with hx | hx
+        · exact hc_sound m typ b f visited hb x hx
+        · exact hc_sound m typ s f visited h x hx
+      | yes => rw [hb] at h; cases h
+      | err e => rw [hb] at h; cases h
 termination_by sizeOf rw
 
 /-- a chain of computed usersets starting at a relation whose `hasCycle` walk said "no" never comes back into the
@@ -322,7 +363,7 @@ theorem no_computed_cycle (m : Model) (h : validate m = .ok ()) (td : TypeDef) (
   have hn := (validateRelation_parts m td.name rd (hv.relations td htd rd hrd)).2.2.2
   unfold noCycle at hn
   intro hp
-  cases hc : hasCycleRw m td.name (m.types.foldl (fun n t => n + t.rels.length) 1) [rd.name] rd.rewrite with
+  cases hc : hasCycleRw m td.name heFuel [rd.name] rd.rewrite with
   | no =>
     exact path_avoids_visited m td.name hp _ [rd.name] rd (findRel_of_mem m hv td htd rd hrd) hc (by simp)
   | yes => rw [hc] at hn; cases hn
